@@ -191,6 +191,8 @@ class Engine:
             return self.index_value(v[1], i)
         if k == "vmap":
             return self.vmap_at(v, i)
+        if k == "slice_of" and v[2][0] == "int" and i[0] == "int":
+            return self.index_value(v[1], ("int", v[2][1] + i[1]))
         if k == "upd_idx":
             if v[2] == i:
                 return v[3]
@@ -548,6 +550,10 @@ class Engine:
             rec = self.prog.consts.get(p)
             if rec is not None and "int" in rec:
                 return ("int", rec["int"])
+            if rec is not None and "bytes" in rec:
+                arr = decode_int_array(rec.get("ty"), rec["bytes"])
+                if arr is not None:
+                    return arr          # `const XS: [usize; 4] = [0, 2, 3, 4]`: its evaluated contents
             return ("const", p)
         if "int" in c:
             t = c["ty"]
@@ -1265,7 +1271,8 @@ class Engine:
         if info.kind == "iter" and info.src is not None:
             from .models import shape_len, unrollable
             n_trip = shape_len(self, info.src)
-            if not (isinstance(n_trip, int) and 0 <= n_trip <= UNROLL_MAX and unrollable(info.src)):
+            from .models import unroll_limit
+            if not (isinstance(n_trip, int) and 0 <= n_trip <= unroll_limit(info.src) and unrollable(info.src)):
                 n_trip = None
         if n_trip is not None:
             del self.obligations[nob:]
@@ -1792,3 +1799,17 @@ def seq_concat(parts, lens=None):
     if len(out) == 1:
         return out[0]
     return ("concat", tuple(out))
+
+
+def decode_int_array(ty, hexbytes):
+    """Evaluated contents of a constant of type [<int>; n] from its little-endian memory image."""
+    if not ty or ty[0] != "array" or ty[1][0] != "prim" or not isinstance(ty[2], int):
+        return None
+    width = {"u8": 1, "i8": 1, "u16": 2, "i16": 2, "u32": 4, "i32": 4, "u64": 8, "i64": 8, "usize": 8, "isize": 8, "u128": 16, "i128": 16}.get(ty[1][1])
+    if width is None:
+        return None
+    raw = bytes.fromhex(hexbytes)
+    if len(raw) != width * ty[2]:
+        return None
+    signed = ty[1][1].startswith("i")
+    return ("array", tuple(("int", int.from_bytes(raw[i * width:(i + 1) * width], "little", signed=signed)) for i in range(ty[2])))
